@@ -428,6 +428,7 @@ func (l *IPFSLog) Iterator(options *IteratorOptions, output chan<- iface.IPFSLog
 
 	if options.Amount != nil {
 		if *options.Amount == 0 {
+			close(output)
 			return nil
 		}
 		amount = *options.Amount
@@ -492,7 +493,7 @@ func (l *IPFSLog) Iterator(options *IteratorOptions, output chan<- iface.IPFSLog
 	}
 
 	// Deal with the amount argument working backwards from gt/gte
-	if (options.GT.Defined() || options.GTE.Defined()) && amount > -1 {
+	if (options.GT.Defined() || options.GTE.Defined()) && amount > -1 && amount < len(entries) {
 		entries = entries[len(entries)-amount:]
 	}
 
